@@ -976,7 +976,7 @@ def u_rescale(ctx):
 NS_CHAIN = 12
 
 
-def _chain(L, kind, two_starts):
+def _chain(L, kind, two_starts, starts=None):
     """Chain MDP 0 -> 1 -> ... whose inner episode ends (terminal or inner truncation) on entering state L."""
     from vlib.mdp import FiniteMDP
 
@@ -985,7 +985,8 @@ def _chain(L, kind, two_starts):
     end = np.zeros(NS_CHAIN, bool)
     end[L] = True
     none = np.zeros(NS_CHAIN, bool)
-    starts = [0, 1] if (two_starts and L >= 2) else [0, 0]
+    if starts is None:
+        starts = [0, 1] if (two_starts and L >= 2) else [0, 0]
     return FiniteMDP(P, R, end if kind == "terminal" else none, starts, trunc=end if kind == "truncate" else none)
 
 
@@ -1032,6 +1033,8 @@ def _tl_episode_walk(ctx, W, N, L, kind, wrap, n_eps, key0, inner_of=lambda s: s
                 key = "timelimit-drops-inner-truncation"
             ctx.violation(key, {"N": N, "L": L, "inner_end": kind, "wrap": wrap, "episode": ep, "start": start,
                                 "step_in_episode": t, "got": bool(trunc), "want": want_trunc})
+        if not ok:
+            break  # reference and real env disagree about the episode boundary: later steps would only echo this
         if t >= N and not (inner_end):
             ctx.monitor("timelimit_limit_decided")
         if inner_end and t < N:
@@ -1054,7 +1057,7 @@ def _tl_episode_walk(ctx, W, N, L, kind, wrap, n_eps, key0, inner_of=lambda s: s
             if any(c != t for c in cs):
                 ok = False
                 ctx.violation("timelimit-count-wrong-mid-episode", {"N": N, "L": L, "t": t, "counts": cs})
-        if not ok and ep >= 1:
+        if not ok:
             break
     return ok
 
@@ -1116,8 +1119,8 @@ def u_timelimit(ctx):
             s = W.transition(s, jnp.asarray(0), key=ctx.key(k))
     # --- D: vmapped environments keep their own counters (episodes de-synchronise through two start states)
     E = 6
-    for N, L in [(3, 4), (2, 6), (5, 3)][: ctx.n(2, 3)]:
-        W = lw.TimeLimit(_chain(L, "terminal", True), N)
+    for N, L, st in [(4, 5, [0, 3]), (2, 4, [0, 3]), (3, 6, [0, 4])][: ctx.n(2, 3)]:
+        W = lw.TimeLimit(_chain(L, "terminal", True, starts=st), N)
         states = jax.vmap(lambda k: W.initial(key=k))(jr.split(ctx.key(9500 + N), E))
         vstep = eqx.filter_jit(jax.vmap(lambda s, a, k: W.step(s, a, key=k)))
         t = np.zeros(E, int)
@@ -1130,7 +1133,7 @@ def u_timelimit(ctx):
             want_trunc = t >= N
             ctx.monitor("timelimit_vmap_steps", E)
             if not np.array_equal(np.asarray(trunc), want_trunc) or not np.array_equal(np.asarray(term), want_term):
-                ctx.violation("timelimit-vmap-envs-share-count", {"N": N, "L": L, "k": k, "trunc": np.asarray(trunc),
+                ctx.violation("timelimit-vmap-per-env-flags-wrong", {"N": N, "L": L, "k": k, "trunc": np.asarray(trunc),
                                                                   "want_trunc": want_trunc, "term": np.asarray(term), "want_term": want_term})
                 break
             done = want_term | want_trunc
@@ -1142,6 +1145,426 @@ def u_timelimit(ctx):
     for m, k in (("timelimit_limit_decided", 50), ("timelimit_inner_end_before_limit", 50), ("timelimit_episode_boundaries", 200),
                  ("timelimit_functional_truncate_checks", 10), ("timelimit_vmap_desynchronised_boundaries", 1)):
         ctx.require(m, k)
+
+
+# ------------------------------------------------------------------ adapters
+def _twin_fns():
+    import equinox as eqx
+
+    if "twin" not in _JIT:
+        def twin(env, s, a, key):
+            ns = env.transition(s, a, key=key)
+            return dict(ns=ns, rew=env.reward(s, a, ns, key=key), term=env.terminal(ns, key=key),
+                        trunc=env.truncate(ns), obs_n=env.observation(ns, key=key))
+
+        _JIT["twin"] = eqx.filter_jit(twin)
+        _JIT["obs"] = eqx.filter_jit(lambda env, s, key: env.observation(s, key=key))
+    return _JIT["twin"], _JIT["obs"]
+
+
+def _lerax_adaptees(ctx, thorough_extra=True):
+    """(name, env, fresh(state) -> bool: is this the first state of an episode)"""
+    from lerax import wrapper as lw
+    from lerax.env.classic_control import Acrobot, CartPole, ContinuousMountainCar, MountainCar, Pendulum
+
+    classic_fresh = lambda s: float(s.unwrapped.t) == 0.0  # noqa: E731
+    out = [("CartPole", CartPole(), classic_fresh),
+           ("TimeLimit(Pendulum,5)", lw.TimeLimit(Pendulum(), 5), classic_fresh),
+           ("TimeLimit(MountainCar,4)", lw.TimeLimit(MountainCar(), 4), classic_fresh),
+           ("TimeLimit(chain,3)", lw.TimeLimit(_chain(5, "terminal", True, starts=[0, 3]), 3),
+            lambda s: int(s.unwrapped.t) == 0 and int(s.unwrapped.s) in (0, 3))]
+    if not ctx.quick and thorough_extra:
+        out += [("TimeLimit(ContinuousMountainCar,6)", lw.TimeLimit(ContinuousMountainCar(), 6), classic_fresh),
+                ("TimeLimit(Acrobot,6)", lw.TimeLimit(Acrobot(), 6), classic_fresh),
+                ("MountainCar", MountainCar(), classic_fresh)]
+    return out
+
+
+def _adaptee_action(rng, sp, i):
+    if sp[0] == "discrete":
+        return int(rng.integers(sp[1]))
+    return _gen_action(rng, sp, i % 4)  # inside, at the bounds, beyond the bounds
+
+
+def _space_vs_foreign(ctx, key, lerax_sp, foreign, name):
+    """Foreign (Gymnasium / Gymnax) space advertises the same set as the lerax space."""
+    ctx.monitor("adapter_space_checks")
+    ok = True
+    if lerax_sp[0] == "discrete":
+        ok = type(foreign).__name__ == "Discrete" and int(foreign.n) == lerax_sp[1]
+    elif lerax_sp[0] == "box":
+        ok = (type(foreign).__name__ == "Box" and tuple(foreign.shape) == lerax_sp[1].shape
+              and np.array_equal(np.broadcast_to(np.asarray(foreign.low, np.float32), lerax_sp[1].shape), lerax_sp[1])
+              and np.array_equal(np.broadcast_to(np.asarray(foreign.high, np.float32), lerax_sp[2].shape), lerax_sp[2]))
+    if not ok:
+        ctx.violation(key, {"env": name, "got": repr(foreign)[:200], "want": _sp_desc(lerax_sp)})
+
+
+def u_lerax2gym(ctx):
+    """LeraxToGymEnv vs the adapted env's own functional API, stepped from the adapter's state."""
+    import jax.numpy as jnp
+    from jax import random as jr
+    from lerax.compatibility.gym import LeraxToGymEnv
+    from vlib.common import digest
+
+    twin, obs_of = _twin_fns()
+    n_steps = ctx.n(40, 150)
+    kk = jr.key(0)
+    for name, env, fresh in _lerax_adaptees(ctx):
+        pre = "lerax-to-gym"
+        try:
+            g = LeraxToGymEnv(env)
+        except Exception as e:
+            ctx.violation(f"{pre}-not-constructible", {"env": name, "error": f"{type(e).__name__}: {e}"[:300]})
+            continue
+        asp, osp = _sp(env.action_space), _sp(env.observation_space)
+        _space_vs_foreign(ctx, f"{pre}-action-space-mismatch", asp, g.action_space, name)
+        _space_vs_foreign(ctx, f"{pre}-observation-space-mismatch", osp, g.observation_space, name)
+        try:
+            seed = int(ctx.rng.integers(1, 2**30))
+            o, info = g.reset(seed=seed)
+            first = np.asarray(o).copy()
+            o_b, _ = g.reset(seed=seed)
+            o_c, _ = g.reset(seed=seed + 1)
+            ctx.monitor("adapter_seed_checks")
+            if not np.array_equal(first, np.asarray(o_b)):
+                ctx.violation(f"{pre}-reset-seed-not-reproducible", {"env": name, "seed": seed, "a": first, "b": o_b})
+            if not name.startswith("TimeLimit(chain") and np.array_equal(first, np.asarray(o_c)):
+                ctx.violation(f"{pre}-reset-seed-ignored", {"env": name, "seed": seed, "obs": first})
+            o, info = g.reset(seed=seed)
+            s = g.state
+            if not isinstance(o, np.ndarray) or not fresh(s):
+                ctx.violation(f"{pre}-reset-output-wrong", {"env": name, "type": type(o).__name__, "fresh": bool(fresh(s))})
+            d = _tree_diff(o, obs_of(env, s, kk), 1e-6 * (1 + _amax(o)))
+            if d:
+                ctx.violation(f"{pre}-reset-observation-not-of-state", {"env": name, "diff": d})
+            eps = 0
+            for i in range(n_steps):
+                a = _adaptee_action(ctx.rng, asp, i)
+                ref = twin(env, s, _to_jax_action(a, asp), kk)
+                o, r, te, tr, info = g.step(a if asp[0] == "discrete" else np.asarray(a, np.float32))
+                ctx.monitor("adapter_steps")
+                done_ref = bool(ref["term"]) or bool(ref["trunc"])
+                ctx.case({"adapter": "LeraxToGymEnv", "env": name, "i": i, "a": digest(np.asarray(a)),
+                          "s": digest(*__import__("jax").tree.leaves(s))}, nontrivial=done_ref, cls=f"lerax2gym/{name}")
+                if not (isinstance(r, float) and isinstance(te, bool) and isinstance(tr, bool) and isinstance(o, np.ndarray)):
+                    ctx.violation(f"{pre}-step-output-types", {"env": name, "types": [type(x).__name__ for x in (o, r, te, tr)]})
+                if te != bool(ref["term"]) or tr != bool(ref["trunc"]):
+                    ctx.violation(f"{pre}-done-flags-mismatch", {"env": name, "i": i, "action": a, "got": [te, tr],
+                                                                 "want": [bool(ref["term"]), bool(ref["trunc"])]})
+                    break
+                if abs(r - float(ref["rew"])) > 1e-5 * (1 + abs(float(ref["rew"]))):
+                    ctx.violation(f"{pre}-reward-mismatch", {"env": name, "i": i, "action": a, "got": r, "want": float(ref["rew"])})
+                if done_ref:
+                    eps += 1
+                    ctx.monitor("adapter_episode_boundaries")
+                    s = g.state
+                    if not fresh(s):
+                        ctx.violation(f"{pre}-no-fresh-episode-after-done", {"env": name, "i": i})
+                    d = _tree_diff(o, obs_of(env, s, kk), 1e-6 * (1 + _amax(o)))
+                    if d:
+                        ctx.violation(f"{pre}-post-reset-observation-not-of-state", {"env": name, "i": i, "diff": d})
+                else:
+                    d = _tree_diff(g.state, ref["ns"], _tb(ref["ns"])) or _tree_diff(o, ref["obs_n"], _tb(ref["obs_n"]))
+                    if d:
+                        ctx.violation(f"{pre}-trajectory-diverges-from-twin", {"env": name, "i": i, "action": a, "diff": d})
+                        break
+                    s = g.state
+        except Exception as e:
+            ctx.violation(f"{pre}-raises", {"env": name, "error": f"{type(e).__name__}: {e}"[:400]})
+    ctx.require("adapter_steps", 100)
+    ctx.require("adapter_episode_boundaries", 10)
+
+
+def u_lerax2gymnax(ctx):
+    """LeraxToGymnaxEnv vs the adapted env's own functional API, stepped from the adapter's state."""
+    from jax import random as jr
+    from lerax.compatibility.gymnax import LeraxToGymnaxEnv
+    from vlib.common import digest
+
+    twin, obs_of = _twin_fns()
+    n_steps = ctx.n(40, 150)
+    kk = jr.key(0)
+    pre = "lerax-to-gymnax"
+    for ei, (name, env, fresh) in enumerate(_lerax_adaptees(ctx)):
+        try:
+            g = LeraxToGymnaxEnv(env)
+            params = g.default_params
+        except Exception as e:
+            ctx.violation(f"{pre}-not-constructible", {"env": name, "error": f"{type(e).__name__}: {e}"[:300]})
+            continue
+        asp, osp = _sp(env.action_space), _sp(env.observation_space)
+        try:
+            _space_vs_foreign(ctx, f"{pre}-action-space-mismatch", asp, g.action_space(params), name)
+            _space_vs_foreign(ctx, f"{pre}-observation-space-mismatch", osp, g.observation_space(params), name)
+            if g.name != env.name:
+                ctx.violation(f"{pre}-name-mismatch", {"got": g.name, "want": env.name})
+            k0 = ctx.key(100 * ei)
+            o, st = g.reset(k0, params)
+            o2, st2 = g.reset(k0, params)
+            o3, _ = g.reset(ctx.key(100 * ei + 1), params)
+            ctx.monitor("adapter_seed_checks")
+            if _tree_diff((o, st.env_state), (o2, st2.env_state), 0.0):
+                ctx.violation(f"{pre}-reset-key-not-reproducible", {"env": name})
+            if not name.startswith("TimeLimit(chain") and np.array_equal(np.asarray(o), np.asarray(o3)):
+                ctx.violation(f"{pre}-reset-key-ignored", {"env": name})
+            if not fresh(st.env_state) or int(st.time) != 0:
+                ctx.violation(f"{pre}-reset-output-wrong", {"env": name, "time": int(st.time)})
+            d = _tree_diff(o, obs_of(env, st.env_state, kk), 1e-6 * (1 + _amax(o)))
+            if d:
+                ctx.violation(f"{pre}-reset-observation-not-of-state", {"env": name, "diff": d})
+            for i in range(n_steps):
+                a = _adaptee_action(ctx.rng, asp, i)
+                aj = _to_jax_action(a, asp)
+                ref = twin(env, st.env_state, aj, kk)
+                o, st_n, r, done, info = g.step(ctx.key(100 * ei + 2 + i), st, aj, params)
+                ctx.monitor("adapter_steps")
+                done_ref = bool(ref["term"]) or bool(ref["trunc"])
+                ctx.case({"adapter": "LeraxToGymnaxEnv", "env": name, "i": i, "a": digest(np.asarray(a)),
+                          "s": digest(*__import__("jax").tree.leaves(st.env_state))}, nontrivial=done_ref, cls=f"lerax2gymnax/{name}")
+                if bool(done) != done_ref:
+                    ctx.violation(f"{pre}-done-flag-mismatch", {"env": name, "i": i, "action": a, "got": bool(done),
+                                                                "want_term_trunc": [bool(ref["term"]), bool(ref["trunc"])]})
+                    break
+                if abs(float(r) - float(ref["rew"])) > 1e-5 * (1 + abs(float(ref["rew"]))):
+                    ctx.violation(f"{pre}-reward-mismatch", {"env": name, "i": i, "action": a, "got": float(r), "want": float(ref["rew"])})
+                if done_ref:
+                    ctx.monitor("adapter_episode_boundaries")
+                    if not fresh(st_n.env_state) or int(st_n.time) != 0:
+                        ctx.violation(f"{pre}-no-fresh-episode-after-done", {"env": name, "i": i, "time": int(st_n.time)})
+                    d = _tree_diff(o, obs_of(env, st_n.env_state, kk), 1e-6 * (1 + _amax(o)))
+                    if d:
+                        ctx.violation(f"{pre}-post-reset-observation-not-of-state", {"env": name, "i": i, "diff": d})
+                else:
+                    d = (_tree_diff(st_n.env_state, ref["ns"], _tb(ref["ns"])) or _tree_diff(o, ref["obs_n"], _tb(ref["obs_n"])))
+                    if d:
+                        ctx.violation(f"{pre}-trajectory-diverges-from-twin", {"env": name, "i": i, "action": a, "diff": d})
+                        break
+                    if int(st_n.time) != int(st.time) + 1:
+                        ctx.violation(f"{pre}-time-not-incremented", {"env": name, "i": i, "time": int(st_n.time)})
+                    go = g.get_obs(st_n, params)
+                    if _tree_diff(go, ref["obs_n"], _tb(ref["obs_n"])):
+                        ctx.violation(f"{pre}-get-obs-mismatch", {"env": name, "i": i})
+                    if bool(g.is_terminal(st_n, params)) != bool(ref["term"]):
+                        ctx.violation(f"{pre}-is-terminal-mismatch", {"env": name, "i": i})
+                st = st_n
+        except Exception as e:
+            ctx.violation(f"{pre}-raises", {"env": name, "error": f"{type(e).__name__}: {e}"[:400]})
+    ctx.require("adapter_steps", 100)
+    ctx.require("adapter_episode_boundaries", 10)
+
+
+def _gym_action(rng, space, i):
+    import gymnasium as gym
+
+    if isinstance(space, gym.spaces.Discrete):
+        return int(rng.integers(space.n))
+    lo, hi = np.asarray(space.low, np.float64), np.asarray(space.high, np.float64)
+    return rng.uniform(lo, hi).astype(np.float32)
+
+
+def u_gym2lerax(ctx):
+    """GymToLeraxEnv vs (a) a log of what the adapted Gymnasium env itself returned and (b) an identically
+    seeded twin Gymnasium env."""
+    import gymnasium as gym
+    import jax.numpy as jnp
+    from lerax.compatibility.gym import GymToLeraxEnv
+    from vlib.common import digest
+
+    class Rec(gym.Wrapper):
+        def __init__(self, env):
+            super().__init__(env)
+            self.log = []
+
+        def reset(self, *, seed=None, options=None):
+            o, info = self.env.reset(seed=seed, options=options)
+            self.log.append(("reset", seed, np.asarray(o).copy()))
+            return o, info
+
+        def step(self, action):
+            o, r, te, tr, info = self.env.step(action)
+            self.log.append(("step", np.asarray(action).copy(), np.asarray(o).copy(), float(r), bool(te), bool(tr)))
+            return o, r, te, tr, info
+
+    ids = [("CartPole-v1", 9), ("MountainCar-v0", 5), ("Pendulum-v1", 4), ("Acrobot-v1", 6)]
+    if not ctx.quick:
+        ids += [("MountainCarContinuous-v0", 7), ("CartPole-v1", 500), ("FrozenLake-v1", 6)]
+    n_steps = ctx.n(40, 150)
+    pre = "gym-to-lerax"
+    for ei, (gid, M) in enumerate(ids):
+        name = f"{gid}[max{M}]"
+        for api in ("functional", "step"):
+            try:
+                genv = Rec(gym.make(gid, max_episode_steps=M))
+                twin = gym.make(gid, max_episode_steps=M)
+                env = GymToLeraxEnv(genv)
+            except Exception as e:
+                ctx.violation(f"{pre}-not-constructible", {"env": name, "error": f"{type(e).__name__}: {e}"[:300]})
+                continue
+            try:
+                _space_vs_foreign(ctx, f"{pre}-action-space-mismatch", _sp(env.action_space), twin.action_space, name)
+                _space_vs_foreign(ctx, f"{pre}-observation-space-mismatch", _sp(env.observation_space), twin.observation_space, name)
+                seed = int(ctx.rng.integers(1, 2**30))
+                st = env.initial(key=ctx.key(50 * ei), seed=seed)
+                o2, _ = twin.reset(seed=seed)
+                ctx.monitor("adapter_seed_checks")
+                if genv.log[-1][0] != "reset" or genv.log[-1][1] != seed:
+                    ctx.violation(f"{pre}-seed-not-forwarded", {"env": name, "want": seed, "log": str(genv.log[-1][:2])})
+                if not np.array_equal(np.asarray(env.observation(st, key=ctx.key(0))), np.asarray(o2).astype(np.asarray(st.observation).dtype)):
+                    ctx.violation(f"{pre}-initial-observation-mismatch", {"env": name, "got": st.observation, "want": o2})
+                nlog = len(genv.log)
+                for i in range(n_steps):
+                    a = _gym_action(ctx.rng, twin.action_space, i)
+                    aj = jnp.asarray(a)
+                    k = ctx.key(50 * ei + 1 + i)
+                    if api == "functional":
+                        nst = env.transition(st, aj, key=k)
+                        obs, r = env.observation(nst, key=k), env.reward(st, aj, nst, key=k)
+                        te, tr = env.terminal(nst, key=k), env.truncate(nst)
+                    else:
+                        nst, obs, r, te, tr, _ = env.step(st, aj, key=k)
+                    o2, r2, te2, tr2, _ = twin.step(a)
+                    ctx.monitor("adapter_steps")
+                    done = bool(te2 or tr2)
+                    ctx.case({"adapter": "GymToLeraxEnv", "env": name, "api": api, "i": i, "a": digest(np.asarray(a)), "o": digest(np.asarray(o2))},
+                             nontrivial=done, cls=f"gym2lerax/{gid}/{api}")
+                    steps = [e for e in genv.log[nlog:] if e[0] == "step"]
+                    resets = [e for e in genv.log[nlog:] if e[0] == "reset"]
+                    nlog = len(genv.log)
+                    if len(steps) != 1 or not np.array_equal(np.asarray(steps[0][1]).ravel(), np.asarray(a).ravel()):
+                        ctx.violation(f"{pre}-adapted-env-not-stepped-once-with-action", {"env": name, "api": api, "i": i, "n": len(steps)})
+                        break
+                    if bool(te) != bool(te2) or bool(tr) != bool(tr2):
+                        ctx.violation(f"{pre}-done-flags-mismatch", {"env": name, "api": api, "i": i, "got": [bool(te), bool(tr)], "want": [te2, tr2]})
+                        break
+                    if float(r) != float(np.float32(r2)):
+                        ctx.violation(f"{pre}-reward-mismatch", {"env": name, "api": api, "i": i, "got": float(r), "want": float(r2)})
+                    want_o = np.asarray(o2)
+                    if done:
+                        ctx.monitor("adapter_episode_boundaries")
+                        if api == "functional":
+                            if resets:
+                                ctx.violation(f"{pre}-unexpected-reset", {"env": name, "i": i})
+                            seed = int(ctx.rng.integers(1, 2**30))
+                            nst = env.initial(key=k, seed=seed)
+                            want_next = twin.reset(seed=seed)[0]
+                            nlog = len(genv.log)
+                        else:
+                            # `step` has reset the adapted env with a seed of its own choosing: read it from the log
+                            if len(resets) != 1 or resets[0][1] is None:
+                                ctx.violation(f"{pre}-auto-reset-missing-or-unseeded", {"env": name, "i": i, "resets": len(resets)})
+                                break
+                            want_next = twin.reset(seed=int(resets[0][1]))[0]
+                            want_o = want_next
+                        if not np.array_equal(np.asarray(env.observation(nst, key=k)), np.asarray(want_next).astype(np.asarray(nst.observation).dtype)):
+                            ctx.violation(f"{pre}-post-reset-observation-mismatch", {"env": name, "api": api, "i": i})
+                            break
+                    elif resets:
+                        ctx.violation(f"{pre}-unexpected-reset", {"env": name, "api": api, "i": i})
+                    if not np.array_equal(np.asarray(obs), want_o.astype(np.asarray(obs).dtype)):
+                        ctx.violation(f"{pre}-observation-mismatch", {"env": name, "api": api, "i": i, "got": obs, "want": want_o})
+                        break
+                    st = nst
+            except Exception as e:
+                key = f"{pre}-raises"
+                if "unhashable type" in str(e):
+                    key = f"{pre}-discrete-action-passed-as-ndarray"
+                ctx.violation(key, {"env": name, "api": api, "error": f"{type(e).__name__}: {e}"[-500:]})
+            finally:
+                try:
+                    genv.close()
+                    twin.close()
+                except Exception:
+                    pass
+    ctx.require("adapter_steps", 100)
+    ctx.require("adapter_episode_boundaries", 10)
+
+
+def u_gymnax2lerax(ctx):
+    """GymnaxToLeraxEnv vs the Gymnax env's own reset_env / step_env with the same keys."""
+    import gymnax
+    import jax.numpy as jnp
+    from lerax.compatibility.gymnax import GymnaxToLeraxEnv
+    from vlib.common import digest
+
+    ids = [("CartPole-v1", 9), ("Pendulum-v1", 4), ("MountainCar-v0", 5), ("Acrobot-v1", 6)]
+    if not ctx.quick:
+        ids += [("MountainCarContinuous-v0", 7), ("Catch-bsuite", None), ("CartPole-v1", 500)]
+    n_steps = ctx.n(40, 150)
+    pre = "gymnax-to-lerax"
+    for ei, (gid, M) in enumerate(ids):
+        name = f"{gid}[max{M}]"
+        try:
+            genv, params = gymnax.make(gid)
+            if M is not None:
+                params = params.replace(max_steps_in_episode=M)
+            env = GymnaxToLeraxEnv(genv, params)
+        except Exception as e:
+            ctx.violation(f"{pre}-not-constructible", {"env": name, "error": f"{type(e).__name__}: {e}"[:300]})
+            continue
+        asp = _sp(env.action_space)
+        for api in ("functional", "step"):
+            try:
+                _space_vs_foreign(ctx, f"{pre}-action-space-mismatch", asp, genv.action_space(params), name)
+                _space_vs_foreign(ctx, f"{pre}-observation-space-mismatch", _sp(env.observation_space), genv.observation_space(params), name)
+                k0 = ctx.key(1000 * ei)
+                st = env.initial(key=k0)
+                o_t, s_t = genv.reset_env(k0, params)
+                ctx.monitor("adapter_seed_checks")
+                if _tree_diff(env.observation(st, key=k0), o_t, 0.0):
+                    ctx.violation(f"{pre}-initial-observation-mismatch", {"env": name})
+                for i in range(n_steps):
+                    a = _adaptee_action(ctx.rng, asp, 0)
+                    aj = _to_jax_action(a, asp)
+                    k = ctx.key(1000 * ei + 1 + i)
+                    if api == "functional":
+                        nst = env.transition(st, aj, key=k)
+                        obs, r = env.observation(nst, key=k), env.reward(st, aj, nst, key=k)
+                        done = bool(env.terminal(nst, key=k)) or bool(env.truncate(nst))
+                        o_t, s_t, r_t, d_t, _ = genv.step_env(k, s_t, aj, params)
+                    else:
+                        # classic gymnax dynamics ignore the key; the twin restarts from the adapter's state after a reset
+                        nst, obs, r, te, tr, _ = env.step(st, aj, key=k)
+                        done = bool(te) or bool(tr)
+                        o_t, s_t, r_t, d_t, _ = genv.step_env(k, s_t, aj, params)
+                    ctx.monitor("adapter_steps")
+                    ctx.case({"adapter": "GymnaxToLeraxEnv", "env": name, "api": api, "i": i, "a": digest(np.asarray(a)), "o": digest(np.asarray(o_t))},
+                             nontrivial=bool(d_t), cls=f"gymnax2lerax/{gid}/{api}")
+                    if done != bool(d_t):
+                        ctx.violation(f"{pre}-done-flag-mismatch", {"env": name, "api": api, "i": i, "got": done, "want": bool(d_t)})
+                        break
+                    if abs(float(r) - float(r_t)) > 1e-6 * (1 + abs(float(r_t))):
+                        ctx.violation(f"{pre}-reward-mismatch", {"env": name, "api": api, "i": i, "got": float(r), "want": float(r_t)})
+                    if bool(d_t):
+                        ctx.monitor("adapter_episode_boundaries")
+                        if api == "functional":
+                            if _tree_diff(obs, o_t, 1e-6 * (1 + _amax(o_t))):
+                                ctx.violation(f"{pre}-observation-mismatch", {"env": name, "api": api, "i": i, "got": obs, "want": o_t})
+                            k2 = ctx.key(1000 * ei + 500 + i)
+                            nst = env.initial(key=k2)
+                            o_t, s_t = genv.reset_env(k2, params)
+                            if _tree_diff(env.observation(nst, key=k2), o_t, 0.0):
+                                ctx.violation(f"{pre}-initial-observation-mismatch", {"env": name, "i": i})
+                        else:
+                            s_t = nst.env_state
+                            if int(getattr(s_t, "time", 0)) != 0:
+                                ctx.violation(f"{pre}-no-fresh-episode-after-done", {"env": name, "i": i})
+                            if _tree_diff(obs, genv.get_obs(s_t), 1e-6 * (1 + _amax(obs))):
+                                ctx.violation(f"{pre}-post-reset-observation-not-of-state", {"env": name, "i": i})
+                    else:
+                        if _tree_diff(obs, o_t, 1e-6 * (1 + _amax(o_t))):
+                            ctx.violation(f"{pre}-observation-mismatch", {"env": name, "api": api, "i": i, "got": obs, "want": o_t})
+                            break
+                        if _tree_diff(nst.env_state, s_t, 1e-6 * (1 + _amax(s_t))):
+                            ctx.violation(f"{pre}-inner-state-mismatch", {"env": name, "api": api, "i": i})
+                            break
+                    st = nst
+                if gid == "Catch-bsuite":
+                    break  # stochastic reset inside step: functional path only
+            except Exception as e:
+                ctx.violation(f"{pre}-raises", {"env": name, "api": api, "error": f"{type(e).__name__}: {e}"[-500:]})
+    ctx.require("adapter_steps", 100)
+    ctx.require("adapter_episode_boundaries", 10)
 
 
 def run_unit(name, ctx):
